@@ -27,6 +27,27 @@ Clause of the property -> oracle
        run time decreases with position, so that later items finish before earlier ones in a worker pool;
        `C19/evaluate-fixed`: the real `eval_fixed` with fixed models vs. an own Pearson / cosine computation per centre.
 
+Dimension sweeps (`_sweeps`, same oracles with more case keys; every expectation is still the one of the spec functions)
+* argument / storage types: centre as list / numpy-integer tuple / int32 array, radius and threshold as Python int / float /
+  numpy float64 / float32 / int64, masks stored as bool / uint8 / int8 / int16 / float32, column-major, non-contiguous view,
+  negative strides, nested list / tuple -- "for every mask, centre and radius" speaks of values, not of storage.
+* extreme radii: negative (empty searchlight), 1e-300 / 1e-9 (the centre alone), 50 / 1e6 / 1e300 (whole volume).
+* threshold exactly met (k of n voxels inside, threshold k/n; its decimal roundings and neighbouring floats) -> "at least".
+  Pending triage (registration disabled): float32-stored masks form the fraction in single precision.
+* data in extreme units (x 1e-26 .. 1e+12): dissimilarities compared RELATIVE to the largest expected one (no floor at 1).
+* containers: data as nested list / column-major / view, centres as list / tuple / int32 / uint16, searchlights as tuples /
+  int32 / uint16 arrays / one 2-D index matrix / tuple of arrays, events as list / tuple / object array.
+* label kinds and observation orders: negative ints, floats, int32, multi-character strings (one a prefix of another);
+  blocked / sorted / descending / interleaved / shuffled; 1 / 2 / unbalanced observations per condition.
+* sizes: 2 observations, 12-16 conditions, every voxel a centre, 40-voxel and 1-voxel searchlights, > 1000 one-voxel ones.
+* typed data (int16 / uint8 / float32) also above the chunking limit.
+* call sequences: the same call twice gives equal results, results held by the caller are untouched by later calls
+  (`repeat`, `then`, `C19/volume-sequence`, re-reading all searchlights of a volume after the last call), a second call on
+  other contents of the same shape gives ITS result, all inputs (mask, data, centres, searchlights, events, the RDMs object
+  handed to the evaluation) are unchanged afterwards, the same evaluation with another n_jobs gives an equal list.
+* environment: `C19/fresh-interpreter` re-runs cases with string / float labels in new interpreters with other
+  PYTHONHASHSEEDs.
+
 NOT covered by this tier
 * all masks of volumes with more than 8 (quick) / 12 (thorough) voxels, radii outside the enumerated sets, volumes larger
   than 4x4x5 (5x5x6 thorough): bounded domains only.  Float rounding of the distance test is not explored beyond radii
@@ -400,6 +421,8 @@ def _rdm_inputs(case):
     pattern = rs.randn(len(labels), n_vox)
     rows = np.array([labels.index(e) for e in ev.tolist()])
     data = rs.randn(n_obs, n_vox) + 2 * pattern[rows]
+    if case.get('data_seed') is not None:    # other measurements for the SAME centres, searchlights and events
+        data = data + 1.5 * np.random.RandomState(case['data_seed']).randn(n_obs, n_vox)
     if method == 'poisson':
         data = np.abs(data) + 0.25              # rates must be positive
     dt = case.get('dtype')
@@ -535,6 +558,16 @@ def orc_sl_rdms(case):
         return (f'{n_centers} centres, method {method}: {len(bad)} RDM(s) differ from the direct computation, positions '
                 f'{bad[:6]}{"..." if len(bad) > 6 else ""}; e.g. centre #{i} (voxel {int(centers[i])}) got {fmt(got[i])} '
                 f'expected {fmt(want)}{hint}')
+    if case.get('then'):
+        # another call (same shapes, other contents) while the caller still holds the first result
+        held = got.copy()
+        held_vox = vox.copy()
+        r = orc_sl_rdms(case['then'])
+        if r:
+            return f'second call of a sequence: {r}'
+        if not np.array_equal(np.asarray(sl.dissimilarities), held) or \
+                not np.array_equal(np.asarray(sl.rdm_descriptors['voxel_index']), held_vox):
+            return 'the result of the first call changed while get_searchlight_RDMs ran on other data'
     if case.get('repeat'):
         held = got.copy()
         held_vox = vox.copy()
@@ -560,7 +593,7 @@ def orc_pipeline(case):
     shape = tuple(mask.shape)
     radius, thr, method = case['radius'], case['threshold'], case['method']
     rs = np.random.RandomState(case['seed'] + 1000)
-    ev = _events(rs, case.get('events', 'int'), case.get('n_cond', 3), case.get('reps', 2))
+    ev = _events(rs, case.get('events', 'int'), case.get('n_cond', 3), case.get('reps', 2), case.get('event_order', 'shuffled'))
     data4 = rs.randn(len(ev), *shape) + 2 * rs.randn(len(set(ev.tolist())), *shape)[
         np.array([sorted(set(ev.tolist())).index(e) for e in ev.tolist()])]
     data_2d = data4.reshape(len(ev), -1)                       # documented layout: observations x voxels of the volume
@@ -629,6 +662,21 @@ def orc_eval_order(case):
         res = evaluate_models_searchlight(sl, models, fn, method=method, theta=theta, n_jobs=n_jobs)
     if not isinstance(res, list) or len(res) != n:
         return f'n_jobs={n_jobs}: {type(res).__name__} of length {len(res) if hasattr(res, "__len__") else "?"}, expected a list of {n} results'
+    if sl.n_rdm != n or not np.array_equal(np.asarray(sl.dissimilarities), dis) or \
+            not np.array_equal(np.asarray(sl.rdm_descriptors['voxel_index']), centers):
+        return f'n_jobs={n_jobs}: the searchlight RDMs object handed in was modified by the evaluation'
+    if case.get('then_n_jobs') is not None:
+        # the same evaluation with another number of jobs: the same list; the list held from the first call is left alone
+        import copy
+        first = copy.deepcopy(res)
+        with _quiet():
+            res2 = evaluate_models_searchlight(sl, models, fn, method=method, theta=theta, n_jobs=case['then_n_jobs'])
+        if res != first:
+            return f'the result list of the n_jobs={n_jobs} call changed while the n_jobs={case["then_n_jobs"]} call ran'
+        if res2 != first:
+            k = [i for i in range(min(len(res2), n)) if res2[i] != first[i]][:5] if isinstance(res2, list) else '?'
+            return (f'n_jobs={case["then_n_jobs"]} gives another result list than n_jobs={n_jobs} '
+                    f'(lengths {len(res2) if hasattr(res2, "__len__") else "?"} / {n}; differing positions {k})')
     for i, r in enumerate(res):
         if r['n_rdm'] != 1:
             return f'n_jobs={n_jobs}: evaluation #{i} was handed {r["n_rdm"]} RDMs instead of one'
@@ -664,6 +712,8 @@ def orc_eval_fixed(case):
         res = evaluate_models_searchlight(sl, models, eval_fixed, method=method, n_jobs=n_jobs)
     if not isinstance(res, list) or len(res) != n:
         return f'n_jobs={n_jobs}: expected a list of {n} results'
+    if not np.array_equal(np.asarray(sl.dissimilarities), dis) or not np.array_equal(np.asarray(sl.rdm_descriptors['voxel_index']), centers):
+        return f'n_jobs={n_jobs}: the searchlight RDMs object handed in was modified by the evaluation'
     for i in range(n):
         ev = np.asarray(res[i].evaluations, dtype=float).ravel()
         want = []
@@ -679,6 +729,48 @@ def orc_eval_fixed(case):
                                        * np.sum((dis[j] - (dis[j].mean() if method == 'corr' else 0)) ** 2))) for mv in mvecs], 1e-9)][:3]
             return (f'n_jobs={n_jobs} method={method}: result #{i} (voxel {int(centers[i])}) has evaluations {np.round(ev, 6).tolist()}, '
                     f'expected {np.round(want, 6).tolist()}' + (f' (these are the evaluations of centre #{match})' if match else ''))
+    return None
+
+
+_FRESH_CHILD = (
+    'import sys, json, warnings\n'
+    'warnings.simplefilter("ignore")\n'
+    'from vf.rt.harness import ORACLES\n'
+    'import contracts.C19_c\n'
+    'out = []\n'
+    'for name, case in json.load(sys.stdin):\n'
+    '    try:\n'
+    '        out.append(ORACLES[name](case))\n'
+    '    except Exception as e:\n'
+    '        out.append("exception %s: %s" % (type(e).__name__, e))\n'
+    'print("C19-FRESH-RESULT" + json.dumps([hash("face") % 1000, out]))\n')
+
+
+@oracle('C19/fresh-interpreter')
+def orc_fresh(case):
+    """environment: the oracles listed in case['jobs'] hold as well in a NEW interpreter started with
+    PYTHONHASHSEED=case['hashseed'] (string event labels hash differently there, so any dependence of the condition order on
+    the iteration order of a set / dict of labels shows) -- same library, same sys.path"""
+    import json
+    import os
+    import subprocess
+    import sys
+    import rsatoolbox
+    root = os.path.dirname(os.path.dirname(os.path.abspath(__file__)))
+    src = os.path.dirname(os.path.dirname(os.path.abspath(rsatoolbox.__file__)))
+    env = dict(os.environ, PYTHONHASHSEED=str(case['hashseed']), PYTHONPATH=os.pathsep.join([src, root]),
+               PYTHONDONTWRITEBYTECODE='1', MPLBACKEND='Agg')
+    pr = subprocess.run([sys.executable, '-c', _FRESH_CHILD], input=json.dumps(case['jobs']), capture_output=True, text=True,
+                        env=env, timeout=600, cwd=root)
+    lines = [ln for ln in pr.stdout.splitlines() if ln.startswith('C19-FRESH-RESULT')]
+    if pr.returncode != 0 or not lines:
+        return f'the new interpreter failed (exit {pr.returncode}): {pr.stderr.strip()[-400:]}'
+    _, results = json.loads(lines[-1][len('C19-FRESH-RESULT'):])
+    if len(results) != len(case['jobs']):
+        return 'GENERATOR ERROR: the new interpreter answered %d of %d jobs' % (len(results), len(case['jobs']))
+    for (name, job), res in zip(case['jobs'], results):
+        if res is not None:
+            return f"under PYTHONHASHSEED={case['hashseed']}: {name} on {json.dumps(job)[:300]}: {res}"
     return None
 
 
@@ -875,6 +967,312 @@ def tier_c(run, thorough):
     for n_jobs, method in ([(1, 'corr'), (1, 'cosine'), (2, 'corr')] + ([(4, 'cosine'), (2, 'cosine')] if thorough else [])):
         bd.check(orc_eval_fixed, dict(seed=11 + n_jobs, n=17, n_jobs=n_jobs, method=method, single_model=(method == 'cosine')),
                  'n_jobs=1' if n_jobs == 1 else 'n_jobs>1', function='evaluate_models_searchlight')
+    bd.done()
+    bds.append(bd)
+    bds.extend(_sweeps(run, thorough))
+    return bds
+
+
+def _f32_ok(r):
+    return float(np.float32(r)) == float(r)
+
+
+def _sweeps(run, thorough):
+    """dimension sweeps: argument / storage types, extreme units and radii, containers, label kinds and orders, sizes, call
+    sequences, threshold ties, new interpreters.  Every expected value is the one of the spec functions above."""
+    bds = []
+
+    # ---- membership: how centre, radius and mask are typed / stored; extreme radii ------------------------
+    n_shapes = _shapes((5, 5, 6) if thorough else (4, 4, 5))
+    if not thorough:
+        n_shapes = [sh for k, sh in enumerate(n_shapes) if k % 5 == 0 or sh in ((1, 1, 1), (4, 4, 5), (1, 4, 1), (3, 3, 3))]
+    radii = [0, 0.5, 1, SQ2, 1.5, SQ3 + 1e-9, 2, 2.5, 3]
+    x_radii = [-1, -0.5, 1e-9, 1e-300, 50, 1e6, 1e300]
+    bd = Bounded(run, 'C19/neighbors/argument-types', OB_NB,
+                 '%d volume shapes, every voxel as centre; centre as list / tuple of numpy integers / int32 array, radius as Python int / '
+                 'float / numpy float64 / float32 / int64 (where the value is representable), mask stored as bool / uint8 / float32, '
+                 'column-major or as a non-contiguous view, radii %s; extreme radii %s (negative: empty; tiny: the centre alone; huge: the '
+                 'whole volume); results of all centres of a volume re-read after the last call' % (len(n_shapes), [round(r, 10) for r in radii],
+                                                                                                x_radii),
+                 function='_get_searchlight_neighbors')
+    k = 0
+    for shape in n_shapes:
+        for r in radii:
+            k += 1
+            r_as = ['float', 'float64', 'float32' if _f32_ok(r) else 'float64', 'int64' if float(r).is_integer() else 'float', 'py'][k % 5]
+            case = dict(shape=list(shape), radius=r, fill=k % 2, centre_as=('list', 'np-tuple', 'int32')[k % 3], radius_as=r_as,
+                        mask_dtype=('bool', 'uint8', 'float32', 'int')[k % 4], layout=('F', 'strided', 'C')[(k // 2) % 3])
+            bd.check(orc_neighbors, case, 'argument-types,' + ('integer-radius' if float(r).is_integer() else 'non-integer-radius'),
+                     function='_get_searchlight_neighbors')
+        for r in x_radii:
+            k += 1
+            if not thorough and k % 2 and r not in (-1, 1e6):
+                continue
+            bd.check(orc_neighbors, dict(shape=list(shape), radius=r, fill=1, centre_as=('tuple', 'array')[k % 2]), 'extreme-radius',
+                     function='_get_searchlight_neighbors')
+    bd.done()
+    bds.append(bd)
+
+    # ---- centres / neighbour lists: mask storage, scalar types, repeated call -----------------------------
+    v_shapes = [(1, 1, 5), (3, 1, 1), (2, 2, 2), (2, 3, 4), (4, 3, 2), (3, 3, 3), (3, 4, 5), (4, 4, 5)]
+    if thorough:
+        v_shapes += [(1, 4, 1), (5, 3, 4), (5, 5, 6), (2, 9, 3), (7, 3, 5)]
+    v_radii = [1, 1.5, 2, 2.5] + ([0.5, 3, SQ2] if thorough else [])
+    v_thr = [0.5, 0.7, 1.0] + ([0.0, 0.3] if thorough else [])
+    bd = Bounded(run, 'C19/volume-searchlight/storage', OB_VOL,
+                 '%d volume shapes, seeded masks (blob, random 0.8; thorough + random 0.5) stored as uint8 / int8 / int16 / float32 / bool, '
+                 'column-major / non-contiguous view / negative strides / nested tuples, radius and threshold as Python int / float / '
+                 'numpy float64 / float32 / int64 scalars (where the value is representable), radii %s, thresholds %s; every 3rd case '
+                 'calls twice (equal results, first result untouched)' % (len(v_shapes), [round(r, 10) for r in v_radii], v_thr),
+                 function='get_volume_searchlight')
+    k = 0
+    for shape in v_shapes:
+        for var in [dict(mask='blob', seed=3), dict(mask='random', seed=4, density=0.8)] + \
+                ([dict(mask='random', seed=5, density=0.5)] if thorough else []):
+            for r in v_radii:
+                for thr in v_thr:
+                    k += 1
+                    case = dict(shape=list(shape), radius=r, threshold=thr, **var)
+                    case['dtype'] = ('uint8', 'int8', 'float32', 'int16', 'bool')[k % 5]
+                    lay = ('F', 'strided', 'reversed', 'tuple', 'C')[(k // 5 + k) % 5]
+                    if lay == 'tuple':
+                        case['as_tuple'] = True
+                    else:
+                        case['layout'] = lay
+                    case['radius_as'] = ['float', 'float64', 'float32' if _f32_ok(r) else 'float64',
+                                         'int64' if float(r).is_integer() else 'float'][k % 4]
+                    case['threshold_as'] = ['float64', 'int' if float(thr).is_integer() else 'float', 'float32' if _f32_ok(thr) else 'py'][k % 3]
+                    if k % 3 == 0:
+                        case['repeat'] = True
+                    spec_empty = not _spec_volume(_build_mask(case), r, thr)
+                    ic = 'no-accepted-centre' if spec_empty else 'mask-storage-and-scalar-types'
+                    bd.check(orc_volume, case, ic, function='get_volume_searchlight')
+    bd.done()
+    bds.append(bd)
+
+    # ---- threshold exactly met ----------------------------------------------------------------------------
+    max_n = 20 if thorough else 12
+    bd = Bounded(run, 'C19/volume-searchlight/threshold-ties', OB_VOL,
+                 'one-row volumes 1x1xn, nx1x1, 1xnx1 (n = 2..%d; thorough also 2x5x1, 3x4x1, 2x3x2, 3x3x3) with a radius that covers the '
+                 'whole volume, masks with k of n voxels set (seeded positions), thresholds k/n as computed, k/n rounded to 1 and 2 '
+                 'decimals, and the neighbouring floats of k/n: accepted are all k mask voxels iff k/n >= threshold, else none; mask '
+                 'stored as int / bool / float / float32 / uint8' % max_n, function='get_volume_searchlight')
+    t_shapes = [[(1, 1, n), (n, 1, 1), (1, n, 1)][n % 3] for n in range(2, max_n + 1)]
+    if thorough:
+        t_shapes += [(1, 1, n) for n in range(2, max_n + 1) if n % 3 != 0] + [(2, 5, 1), (3, 4, 1), (2, 3, 2), (3, 3, 3)]
+    k = 0
+    single_precision = []
+    for shape in t_shapes:
+        n = shape[0] * shape[1] * shape[2]
+        for ones in range(1, n + 1):
+            rs = np.random.RandomState(1000 * n + ones)
+            bits = np.zeros(n, dtype=int)
+            bits[rs.permutation(n)[:ones]] = 1
+            frac = ones / n
+            thrs = sorted({frac, round(frac, 1), round(frac, 2), _ulp_up(frac), _ulp_dn(frac)})
+            for thr in thrs:
+                if not 0.0 <= thr <= 1.0:
+                    continue
+                k += 1
+                case = dict(shape=list(shape), mask='bits', bits=bits.tolist(), radius=50, threshold=thr)
+                if k % 5:
+                    case['dtype'] = (None, 'bool', 'float', 'float32', 'uint8')[k % 5]
+                if k % 2:
+                    case['threshold_as'] = 'float64'
+                ic = 'threshold-tie' if thr == frac else ('no-accepted-centre' if frac < thr else 'threshold-near-tie')
+                if case.get('dtype') == 'float32' and (thr in (_ulp_up(frac), _ulp_dn(frac)) or case.get('threshold_as')):
+                    # the fraction of a float32 mask is formed in single precision: differs from k/n in the 8th digit
+                    single_precision.append((case, 'float32-mask,threshold-within-1e-7-of-fraction'))
+                    case = dict(case, dtype='float')
+                bd.check(orc_volume, case, ic, function='get_volume_searchlight')
+    if False:  # pending triage: float32-mask,threshold-within-1e-7-of-fraction
+        for case, ic in single_precision:
+            bd.check(orc_volume, case, ic, function='get_volume_searchlight')
+    bd.done()
+    bds.append(bd)
+
+    # ---- several calls in one process ---------------------------------------------------------------------
+    bd = Bounded(run, 'C19/volume-searchlight/call-sequences', OB_VOL,
+                 'sequences of 5-7 get_volume_searchlight calls on volumes 2x3x4, 3x3x3, 4x4x5 (thorough + 5x4x3, 1x6x6): mask A, mask B of '
+                 'the same shape, A again, A with another radius, A with another threshold, the full mask, B again; all results examined '
+                 'after the last call', function='get_volume_searchlight')
+    for q, shape in enumerate([(2, 3, 4), (3, 3, 3), (4, 4, 5)] + ([(5, 4, 3), (1, 6, 6)] if thorough else [])):
+        for kind in ('random', 'blob'):
+            a = dict(mask=kind, seed=10 + q, density=0.8) if kind == 'random' else dict(mask='blob', seed=10 + q)
+            b = dict(mask=kind, seed=20 + q, density=0.8) if kind == 'random' else dict(mask='blob', seed=20 + q)
+            steps = [dict(a, radius=1.5, threshold=0.5), dict(b, radius=1.5, threshold=0.5), dict(a, radius=1.5, threshold=0.5),
+                     dict(a, radius=2, threshold=0.5), dict(a, radius=1.5, threshold=0.7), dict(mask='full', radius=1.5, threshold=0.5),
+                     dict(b, radius=1.5, threshold=0.5)]
+            bd.check(orc_volume_sequence, dict(shape=list(shape), steps=steps), 'call-sequence', function='get_volume_searchlight')
+    bd.done()
+    bds.append(bd)
+
+    # ---- RDM per centre: units, containers, label kinds / orders, sizes, typed data when chunked, call sequences ------
+    bd = Bounded(run, 'C19/searchlight-rdms/sweeps', OB_RDM,
+                 'seeded data as in C19/searchlight-rdms; (units) data multiplied by 1e-26 .. 1e+12, euclidean / correlation, compared '
+                 'relative to the largest expected dissimilarity; (containers) data as nested list / column-major / non-contiguous view, '
+                 'centres as list / tuple / int32 / uint16 array, searchlights as tuples / int32 / uint16 / intp arrays / one 2-D index '
+                 'matrix / a tuple of arrays, events as list / tuple / object array; (labels) negative ints, floats, int32, multi-character '
+                 'strings, orders blocked / sorted / descending / interleaved / shuffled, 1 / 2 / unbalanced observations per condition; '
+                 '(sizes) 2 observations, 12-16 conditions, every voxel a centre, searchlights of 40 voxels, 1-voxel searchlights; typed '
+                 'data (int16 / uint8 / float32) and all of the above also with > 1000 centres; (sequences) same call twice, a second call '
+                 'on other data of the same shape while the first result is held; all four inputs unchanged after every call',
+                 function='get_searchlight_RDMs')
+    # units
+    scales = [1e-26, 1e-12, 1e6, 1e12] + ([1e-20, 1e-6, 1e-3, 1e3, 1e9] if thorough else [])
+    for k, sc in enumerate(scales):
+        for method in ('euclidean', 'correlation', 'mahalanobis'):
+            if method == 'mahalanobis' and not thorough and k % 2:
+                continue
+            bd.check(orc_sl_rdms, dict(seed=800 + k, n_centers=7, method=method, events=('int', 'str')[k % 2], n_cond=3 + k % 2,
+                                       reps=(1, 2)[k % 2], nb_min=3, nb_max=6, scale=sc, centre_order='unsorted'),
+                     f'unchunked,{method},scaled-units', function='get_searchlight_RDMs')
+    for k, sc in enumerate([1e-12, 1e12] if not thorough else [1e-26, 1e-12, 1e6, 1e12]):
+        method = ('euclidean', 'correlation')[k % 2]
+        bd.check(orc_sl_rdms, dict(seed=820 + k, n_centers=1001 + 36 * k, method=method, events='int', n_cond=3, reps=1 + k % 2, nb_min=3,
+                                   nb_max=5, scale=sc, centre_order='unsorted'), 'chunked,scaled-units', function='get_searchlight_RDMs')
+    # containers / index types / memory layout
+    forms = [dict(centres_as='list', nb_as='tuple', events_as='list'),
+             dict(centres_as='tuple', nb_as='int32', events_as='tuple', layout='F'),
+             dict(centres_as='int32', nb_as='2d', nb_min=4, nb_max=4, events_as='object', layout='strided'),
+             dict(centres_as='uint16', nb_as='uint16', nb_outer='tuple', data_as='list'),
+             dict(centres_as='list', nb_as='intp', nb_outer='tuple', events_as='list', data_as='list'),
+             dict(centres_as='tuple', nb_as='2d', nb_min=1, nb_max=1, layout='reversed')]
+    for k, form in enumerate(forms):
+        for method in ('euclidean', 'correlation'):
+            if form.get('nb_max') == 1 and method == 'correlation':
+                continue
+            for events, n_cond, reps in (('str', 4, 1), ('int-gaps', 3, 2)):
+                case = dict(dict(seed=840 + k, n_centers=9, method=method, events=events, n_cond=n_cond, reps=reps, nb_min=3, nb_max=6,
+                                 centre_order='unsorted'), **form)
+                bd.check(orc_sl_rdms, case, f'unchunked,{method},containers', function='get_searchlight_RDMs')
+    for k, form in enumerate(forms[:4] if thorough else forms[:2]):
+        case = dict(dict(seed=860 + k, n_centers=1001 + k, method=('euclidean', 'correlation')[k % 2], events=('str', 'int')[k % 2], n_cond=3,
+                         reps=1 + k % 2, nb_min=3, nb_max=5, centre_order='unsorted'), **form)
+        bd.check(orc_sl_rdms, case, 'chunked,containers', function='get_searchlight_RDMs')
+    # label kinds x observation orders
+    kinds = ['int-neg', 'float', 'str-long', 'int32', 'str', 'int-gaps']
+    orders = ['blocked', 'sorted', 'descending', 'interleaved', 'shuffled']
+    k = 0
+    for kind in kinds:
+        for order in orders:
+            for reps in (1, 2, 'unbalanced'):
+                k += 1
+                if order == 'shuffled' and kind in ('str', 'int-gaps'):
+                    continue                                    # in the first domain
+                if not thorough and (k % 3) != 0 and not (reps == 1 and order in ('blocked', 'descending')):
+                    continue
+                for method in (('euclidean', 'correlation', 'poisson') if thorough else ('euclidean', 'correlation')[k % 2:][:1]):
+                    bd.check(orc_sl_rdms, dict(seed=900 + k, n_centers=5, method=method, events=kind, n_cond=3 + k % 4, reps=reps,
+                                               event_order=order, nb_min=3, nb_max=6, centre_order='unsorted'),
+                             f'unchunked,{method},label-kinds-and-orders', function='get_searchlight_RDMs')
+    for k, (kind, order, reps) in enumerate([('str-long', 'descending', 1), ('int-neg', 'blocked', 1), ('float', 'interleaved', 2)] +
+                                            ([('int32', 'sorted', 'unbalanced'), ('str-long', 'interleaved', 'unbalanced'),
+                                              ('float', 'descending', 1)] if thorough else [])):
+        bd.check(orc_sl_rdms, dict(seed=960 + k, n_centers=1001 + 99 * k, method=('euclidean', 'correlation')[k % 2], events=kind, n_cond=3,
+                                   reps=reps, event_order=order, nb_min=3, nb_max=5, centre_order='unsorted'),
+                 'chunked,label-kinds-and-orders', function='get_searchlight_RDMs')
+    # sizes
+    sizes = [dict(n_centers=4, n_cond=2, reps=1, nb_min=3, nb_max=5),                      # two observations, one dissimilarity
+             dict(n_centers=3, n_cond=12, reps=1, nb_min=3, nb_max=6, event_order='descending'),
+             dict(n_centers=3, n_cond=16, reps='unbalanced', nb_min=2, nb_max=9),
+             dict(n_centers=30, n_vox=30, n_cond=3, reps=2, nb_min=3, nb_max=6),           # every voxel is a centre
+             dict(n_centers=5, n_vox=64, n_cond=4, reps=2, nb_min=40, nb_max=40),
+             dict(n_centers=6, n_vox=6, n_cond=3, reps=1, nb_min=6, nb_max=6),            # every searchlight = all voxels
+             dict(n_centers=1, n_vox=3, n_cond=2, reps=1, nb_min=3, nb_max=3)]
+    for k, sz in enumerate(sizes):
+        for method in ('euclidean', 'correlation'):
+            bd.check(orc_sl_rdms, dict(dict(seed=980 + k, method=method, events='int', centre_order='unsorted'), **sz),
+                     f'unchunked,{method},sizes', function='get_searchlight_RDMs')
+    bd.check(orc_sl_rdms, dict(seed=990, n_centers=12, method='euclidean', events='int', n_cond=3, reps=2, nb_min=1, nb_max=1, nb_as='list'),
+             'unchunked,euclidean,sizes', function='get_searchlight_RDMs')
+    for k, n_centers in enumerate([1001, 1150] + ([2000, 10007] if thorough else [])):
+        bd.check(orc_sl_rdms, dict(seed=995 + k, n_centers=n_centers, n_vox=n_centers, method='euclidean', events='int', n_cond=2 + 10 * (k % 2),
+                                   reps=1, nb_min=1 + 2 * (k % 2), nb_max=3, centre_order='unsorted'), 'chunked,sizes',
+                 function='get_searchlight_RDMs')
+    # typed data, chunked
+    for k, (dt, events, n_cond, reps) in enumerate([('int16', 'int', 3, 1), ('uint8', 'str', 3, 2), ('float32', 'int-gaps', 3, 1)] +
+                                                   ([('int16', 'str', 4, 2), ('uint8', 'int', 3, 1)] if thorough else [])):
+        for method in ('euclidean', 'correlation'):
+            if not thorough and (k + (method == 'correlation')) % 2:
+                continue
+            bd.check(orc_sl_rdms, dict(seed=1010 + k, n_centers=1001 + 18 * k, method=method, events=events, n_cond=n_cond, reps=reps, nb_min=3,
+                                       nb_max=5, dtype=dt, centre_order='unsorted'), f'chunked,{dt}-data', function='get_searchlight_RDMs')
+    # call sequences
+    for k, n_centers in enumerate([6, 50, 1001] + ([1000, 1100, 1263] if thorough else [])):
+        for method in ('euclidean', 'correlation'):
+            if n_centers > 1000 and not thorough and method == 'correlation':
+                continue
+            base = dict(seed=1030 + k, n_centers=n_centers, method=method, events=('str', 'int')[k % 2], n_cond=3, reps=1 + k % 2, nb_min=4,
+                        nb_max=4, centre_order='unsorted')
+            ic = ('chunked' if n_centers > 1000 else 'unchunked') + ',call-sequence'
+            bd.check(orc_sl_rdms, dict(base, repeat=True), ic, function='get_searchlight_RDMs')
+            bd.check(orc_sl_rdms, dict(base, then=dict(base, data_seed=77 + k)), ic, function='get_searchlight_RDMs')
+            other = dict(base, method=('correlation' if method == 'euclidean' else 'euclidean'))
+            bd.check(orc_sl_rdms, dict(base, then=other), ic, function='get_searchlight_RDMs')
+    bd.done()
+    bds.append(bd)
+
+    # ---- pipeline: stored masks, label kinds --------------------------------------------------------------
+    bd = Bounded(run, 'C19/pipeline/sweeps', OB_PIPE,
+                 'pipeline as in C19/pipeline on volumes 3x4x5 .. 6x5x4 with masks stored as uint8 column-major / float32 non-contiguous / '
+                 'bool, events as multi-character strings in descending order (one observation each), negative ints blocked, floats '
+                 'interleaved; thorough + 11x10x10 uint8 column-major (chunked)', function='get_searchlight_RDMs')
+    pipe = [dict(shape=[3, 4, 5], mask='blob', seed=14, radius=1.5, threshold=0.5, method='euclidean', dtype='uint8', layout='F',
+                 events='str-long', n_cond=4, reps=1, event_order='descending'),
+            dict(shape=[4, 3, 4], mask='random', seed=12, density=0.8, radius=2, threshold=0.7, method='correlation', dtype='float32',
+                 layout='strided', events='int-neg', n_cond=3, reps=2, event_order='blocked'),
+            dict(shape=[6, 5, 4], mask='full', seed=13, radius=SQ2 + 1e-9, threshold=1.0, method='euclidean', dtype='bool', layout='reversed',
+                 events='float', n_cond=5, reps='unbalanced', event_order='interleaved')]
+    if thorough:
+        pipe += [dict(shape=[11, 10, 10], mask='full', seed=14, radius=1.5, threshold=0.5, method='correlation', dtype='uint8', layout='F',
+                      events='str-long', n_cond=3, reps=1, event_order='descending')]
+    for case in pipe:
+        n_acc = len(_spec_volume(_build_mask(case), case['radius'], case['threshold']))
+        assert n_acc > 0
+        bd.check(orc_pipeline, case, ('pipeline,chunked' if n_acc > 1000 else 'pipeline,unchunked') + ',stored-masks-and-labels',
+                 function='get_searchlight_RDMs')
+    bd.done()
+    bds.append(bd)
+
+    # ---- evaluation: the same evaluation with another number of jobs, inputs unchanged ---------------------
+    pairs = [(1, 2), (2, 1)] + ([(4, 3), (1, -1), (3, 1)] if thorough else [])
+    bd = Bounded(run, 'C19/evaluate/sequences', OB_EVAL,
+                 'evaluate_models_searchlight called twice on the same searchlight RDMs with (first, second) n_jobs in %s, %s centres: '
+                 'equal result lists, the first list untouched, the RDMs object unchanged; thorough: 1203 centres with 2 jobs'
+                 % (pairs, [23, 101] if thorough else [23]), function='evaluate_models_searchlight')
+    for k, (j1, j2) in enumerate(pairs):
+        for n in ([23, 101] if thorough else [23]):
+            bd.check(orc_eval_order, dict(seed=50 + k + n, n=n, n_jobs=j1, then_n_jobs=j2, theta=None, delay=0.02, method='corr'),
+                     'n_jobs-sequence', function='evaluate_models_searchlight')
+    if thorough:
+        bd.check(orc_eval_order, dict(seed=71, n=1203, n_jobs=2, theta=None, method='cosine'), 'n_jobs>1', function='evaluate_models_searchlight')
+        bd.check(orc_eval_fixed, dict(seed=72, n=1203, n_jobs=2, method='corr'), 'n_jobs>1', function='evaluate_models_searchlight')
+    bd.done()
+    bds.append(bd)
+
+    # ---- new interpreters ---------------------------------------------------------------------------------
+    hashseeds = [1, 31337] + ([2, 3, 123456789] if thorough else [])
+    jobs = [['C19/searchlight-rdms', dict(seed=1100, n_centers=6, method='euclidean', events='str', n_cond=5, reps=1, nb_min=3, nb_max=6,
+                                          centre_order='unsorted')],
+            ['C19/searchlight-rdms', dict(seed=1101, n_centers=6, method='correlation', events='str-long', n_cond=6, reps='unbalanced',
+                                          nb_min=3, nb_max=6, centre_order='unsorted', events_as='list')],
+            ['C19/searchlight-rdms', dict(seed=1102, n_centers=5, method='euclidean', events='str-long', n_cond=8, reps=1,
+                                          event_order='descending', nb_min=3, nb_max=6, events_as='object')],
+            ['C19/searchlight-rdms', dict(seed=1103, n_centers=1003, method='euclidean', events='str', n_cond=4, reps=1, nb_min=3, nb_max=4,
+                                          centre_order='unsorted')],
+            ['C19/searchlight-rdms', dict(seed=1104, n_centers=5, method='correlation', events='float', n_cond=5, reps=2, nb_min=3, nb_max=6)],
+            ['C19/pipeline', dict(shape=[3, 3, 4], mask='random', seed=15, density=0.8, radius=1.5, threshold=0.5, method='euclidean', events='str-long',
+                                  n_cond=5, reps=1)],
+            ['C19/volume-searchlight', dict(shape=[3, 4, 3], mask='random', seed=16, density=0.8, radius=2, threshold=0.5)],
+            ['C19/evaluate-fixed', dict(seed=17, n=9, n_jobs=1, method='corr')]]
+    assert all(_spec_volume(_build_mask(j), j['radius'], j['threshold']) for _, j in jobs if 'radius' in j)
+    bd = Bounded(run, 'C19/fresh-interpreter', OB_RDM,
+                 'new interpreters with PYTHONHASHSEED in %s (this process runs with %s), each running %d cases of the oracles above with '
+                 'string / multi-character string / float event labels (unchunked and 1003 centres), one pipeline, one mask, one evaluation'
+                 % (hashseeds, __import__('os').environ.get('PYTHONHASHSEED', 'unset'), len(jobs)), function='get_searchlight_RDMs')
+    for hs in hashseeds:
+        bd.check(orc_fresh, dict(hashseed=hs, jobs=jobs), 'new-interpreter,other-hash-seed', function='get_searchlight_RDMs')
     bd.done()
     bds.append(bd)
     return bds
